@@ -350,15 +350,108 @@ Example scan_ex :
   map e_k (live (do_scan cfg 0%Z 10%Z [[97%N]] st)) = [1].
 Proof. reflexivity. Qed.
 
-(** Not proved (kept visible; NOT_PROVED in lib/props/c12.py): under interleaving with other
-    clients that only deliver mail younger than the cutoff (monotone clock), a scan that runs
-    to completion leaves no message that was expired when it started, in any mailbox of the
-    walk. Exercised by the racing correspondence stream (oracle check "expired-survived"). *)
-Definition young_adds (cutoff : Z) (evs : list ev) : Prop :=
-  forall mb date tag size, In (EOp (Add mb date tag size)) evs -> (cutoff <= date)%Z.
-Definition expired_gone_unless_aborted_stmt : Prop :=
-  forall cfg cutoff order st evs,
-    SInv st -> young_adds cutoff evs ->
-    s_phase (run cfg cutoff (sys_init order st) evs) = PDone false ->
-    forall e, In e (live st) -> expired cutoff (e_msg e) = true -> In (e_mb e) order ->
-    forall e', In e' (live (s_st (run cfg cutoff (sys_init order st) evs))) -> ~ (e_mb e' = e_mb e /\ e_k e' = e_k e).
+(* ------------------------------------------------------------------ expired messages are gone *)
+
+Section Gone.
+Variable cfg : scfg.
+Variable cutoff : Z.
+Variable mb0 : str.
+Variable k0 : nat.
+Variable d0 : Z.           (* the date of the message (mb0, k0) *)
+Hypothesis d0_expired : (d0 <? cutoff)%Z = true.
+
+Definition present (st : spec_store) : Prop := exists e, In e (live st) /\ is_ent mb0 k0 e = true.
+
+Definition GInv (y : sys) : Prop :=
+  (k0 < count_of mb0 (counts (s_st y))) /\
+  (forall e, In e (live (s_st y)) -> is_ent mb0 k0 e = true -> m_date (e_msg e) = d0) /\
+  match s_phase y with
+  | PIdle => present (s_st y) -> In mb0 (s_todo y)
+  | PBox mb rest => present (s_st y) ->
+      In mb0 (s_todo y) \/ (mb = mb0 /\ exists v, In v rest /\ fst v = k0 /\ expired cutoff (snd v) = true)
+  | PDone false => ~ present (s_st y)
+  | PDone true => True
+  end.
+
+Lemma present_op st o : present (fst (fst (exec_spec cfg st o))) -> k0 < count_of mb0 (counts st) -> present st.
+Proof.
+  intros [e' [He' Ee']] Lt. apply is_ent_iff in Ee' as [Em Ek].
+  destruct (exec_spec_origin cfg st o e' He') as [[e [He [M [K D]]]]|New].
+  - exists e. split; [exact He|]. apply is_ent_iff. split; congruence.
+  - rewrite Em, Ek in New. lia.
+Qed.
+
+Lemma GInv_step y e : GInv y -> GInv (ev_step cfg cutoff y e).
+Proof.
+  intros [Lt [Dt P]]. destruct e as [|o|]; cbn [ev_step].
+  - unfold sc_step. destruct (s_phase y) as [|mb rest|b] eqn:Ph.
+    + destruct (s_todo y) as [|mb r] eqn:T.
+      * unfold set_phase. split; [exact Lt|split; [exact Dt|]]. cbn [s_phase s_st]. intros Pr. exact (P Pr).
+      * split; [exact Lt|split; [exact Dt|]]. cbn [s_phase s_st s_todo]. intros Pr.
+        destruct (P Pr) as [E1|Hin]; [subst mb|left; exact Hin]. right. split; [reflexivity|].
+        destruct Pr as [e [He Ee]]. exists (view_of e). split.
+        -- unfold snapshot. apply in_map. apply box_in. split; [exact He|]. apply is_ent_iff in Ee. tauto.
+        -- cbn [view_of fst snd]. split; [apply is_ent_iff in Ee; tauto|]. unfold expired. rewrite (Dt e He Ee). exact d0_expired.
+    + destruct rest as [|v rest].
+      * destruct (s_cancel y); unfold set_phase; (split; [exact Lt|split; [exact Dt|]]); cbn [s_phase s_st s_todo]; [exact I|].
+        intros Pr. destruct (P Pr) as [H|[_ [w [[] _]]]]. exact H.
+      * destruct (expired cutoff (snd v)) eqn:E.
+        -- destruct (do_remove_live cfg (s_st y) mb (fst v)) as [L C].
+           split; [|split]; cbn [s_st s_phase s_todo].
+           ++ rewrite C. exact Lt.
+           ++ rewrite L. unfold remove_ent. intros e He. apply filter_In in He as [He _]. apply Dt. exact He.
+           ++ intros [e [He Ee]]. rewrite L in He. unfold remove_ent in He. apply filter_In in He as [He Ne].
+              destruct (P (ex_intro _ e (conj He Ee))) as [H|[-> [w [[<-|Hw] [Kw Xw]]]]]; [left; exact H| |].
+              ** rewrite Kw in Ne. rewrite Ee in Ne. discriminate.
+              ** right. split; [reflexivity|]. exists w. auto.
+        -- unfold set_phase. split; [exact Lt|split; [exact Dt|]]. cbn [s_st s_phase s_todo].
+           intros Pr. destruct (P Pr) as [H|[-> [w [[<-|Hw] [Kw Xw]]]]]; [left; exact H|congruence|].
+           right. split; [reflexivity|]. exists w. auto.
+    + split; [exact Lt|split; [exact Dt|]]. rewrite Ph. exact P.
+  - pose proof (exec_spec_count_mono cfg (s_st y) o mb0) as Mono.
+    split; [|split]; cbn [s_st s_phase s_todo].
+    + lia.
+    + intros e' He' Ee'. pose proof Ee' as Ee2. apply is_ent_iff in Ee2 as [Em Ek].
+      destruct (exec_spec_origin cfg (s_st y) o e' He') as [[e [He [M [K D]]]]|New].
+      * rewrite <- D. apply Dt; [exact He|]. apply is_ent_iff. split; congruence.
+      * rewrite Em, Ek in New. lia.
+    + destruct (s_phase y) as [|mb rest|[|]]; try exact I.
+      * intros Pr. apply P. apply (present_op _ o Pr Lt).
+      * intros Pr. apply P. apply (present_op _ o Pr Lt).
+      * intros Pr. apply P. apply (present_op _ o Pr Lt).
+  - split; [exact Lt|split; [exact Dt|exact P]].
+Qed.
+
+Lemma GInv_run evs : forall y, GInv y -> GInv (run cfg cutoff y evs).
+Proof. induction evs as [|e evs IH]; intros y H; [exact H|]. unfold run. cbn [fold_left]. apply IH. apply GInv_step. exact H. Qed.
+
+End Gone.
+
+(** expired_gone_unless_aborted: whatever other clients do meanwhile, a scan that runs to
+    completion leaves no message that was expired when it started, in any mailbox of the walk
+    (handles are never reused, so a later delivery cannot be mistaken for it). *)
+Lemma expired_gone_unless_aborted cfg cutoff order st evs :
+  SInv st ->
+  s_phase (run cfg cutoff (sys_init order st) evs) = PDone false ->
+  forall e, In e (live st) -> expired cutoff (e_msg e) = true -> In (e_mb e) order ->
+  forall e', In e' (live (s_st (run cfg cutoff (sys_init order st) evs))) -> ~ (e_mb e' = e_mb e /\ e_k e' = e_k e).
+Proof.
+  intros S Ph e He Ex Ho e' He' [Em Ek].
+  assert (G0 : GInv cutoff (e_mb e) (e_k e) (m_date (e_msg e)) (sys_init order st)).
+  { destruct S as [SS LT]. split; [apply LT; exact He|]. split.
+    - intros x Hx Ex'. apply is_ent_iff in Ex' as [Xm Xk].
+      assert (x = e); [|subst; reflexivity].
+      eapply SS_klt_inj; [apply (SS (e_mb e))|apply box_in; auto|apply box_in; auto|exact Xk].
+    - cbn [s_phase sys_init s_todo]. intros _. exact Ho. }
+  pose proof (GInv_run cfg cutoff (e_mb e) (e_k e) (m_date (e_msg e)) Ex evs _ G0) as [_ [_ P]].
+  rewrite Ph in P. apply P. exists e'. split; [exact He'|]. apply is_ent_iff. auto.
+Qed.
+
+(** Non-vacuity: a schedule with a delivery in the middle of the walk runs to completion, the
+    expired message is gone, the young one and the new one stay, the log holds the expired one. *)
+Example run_ex :
+  let cfg := {| c_cap := 0; c_max := 0%N |} in
+  let st := fst (fst (exec_spec cfg (fst (fst (exec_spec cfg spec_init (Add [97%N] (-50)%Z 0%N 0%N)))) (Add [97%N] (-5)%Z 1%N 0%N))) in
+  let y := run cfg (-10)%Z (sys_init [[97%N]] st) [EStep; EOp (Add [97%N] 0%Z 2%N 0%N); EStep; EStep; EStep; EStep] in
+  s_phase y = PDone false /\ map e_k (live (s_st y)) = [1; 2] /\ map e_k (s_removed y) = [0].
+Proof. repeat split. Qed.
